@@ -29,6 +29,14 @@ RULE = ("Hypothesis draws sample sets over d 2..4(5) modes with 1..4(5) index va
         "unchanged library and not passed); e in {None, default, 1e-8, 1e-4, 1e-2}; oracle = independent fit of EVERY dimension "
         "(augmented least-squares ridge solve on the own Chebyshev design matrix; for lamb < 1e-8 on exactly rank-deficient designs "
         "the orthogonal projection = fitted values at all training points) + own Chebyshev basis for the interpolant. "
+        "Boxes of the functional variant: default / one scalar interval / drawn real per-dimension intervals / family `perdim` (sub "
+        "func_boxes and a share of func): a DIFFERENT dyadic interval per dimension from a catalogue (the standard interval, "
+        "sub-intervals touching -1, +1 or neither, [0, 1], negative, positive, wider, asymmetric, integer ones), kinds free / "
+        "unit_hull (hull of the box exactly [-1, 1] with narrower dimensions) / unit_some (some dimensions exactly [-1, 1]) / integer / "
+        "same; a, b spelled as list, tuple, ndarray (float64, float32, int64, int32, strided), list of ints / np.float64, scalar float "
+        "/ int / np.float64 (constant boxes), one bound scalar and the other a sequence, positional or keyword; every case "
+        "repeats the call with a second drawn spelling of the same box (also default vs explicit, scalar vs constant list) and "
+        "requires identical cores; points inside and on the faces; the independent refit uses the per-dimension affine map. "
         "Non-trivial = (sparse data or duplicates) or r > 2 or order 2; functional: m >= 2 and non-constant y. Distinct by SHA-1. "
         "order2_wide: order 2 over d = 5, 6, 7 (mode sizes 2..3(4), at most one mode of size 1) and d = 10 (8, 9, 11 thorough; mode "
         "size 2), i.e. 11..56 add_many summands so that the periodic roundings of the summation schedule are reached (also exactly "
@@ -54,7 +62,7 @@ RULE = ("Hypothesis draws sample sets over d 2..4(5) modes with 1..4(5) index va
         "property (shape, ranks, values within the order-1 majorant / order-2 bound) for the recomputed model of the data last "
         "built (also for int seeds, where streams cannot be aligned). func_history: ONE ANOVA_func object asked for coeffs and "
         "cores(e), e in {default, None, 1e-8, 1e-4, 1e-2, 0.5}, 2..6 times in a drawn order: every answer equals that of a fresh "
-        "object and of anova_func(...) on identical arguments, bit for bit.")
+        "object and of anova_func(...) on identical arguments, bit for bit (boxes: default / drawn list / family `perdim` in a drawn spelling).")
 TOLERANCES = ("f0: 2(m+4) eps mean|y|; f1/f2: the same for the conditional mean + inherited terms; order 1: |dense - model| <= "
               "dense(|C0|+D) - dense(|C0|) + 2K eps dense(|C0|+D), D = 3*noise (40*noise for int seeds) on non-structural entries and the "
               "f-tolerances on structural ones, K = 32(d+sum r+max n); order 2 (no bond rank equal to the cap r): Frobenius error <= "
@@ -86,6 +94,12 @@ ASSUMPTIONS = ["d >= 2, r >= 2 (cores_1 writes column 1 of every core), noise >=
                "f0, f1, f2, d, shapes, domain, dtype, y_max, y_min; ANOVA_func(...), coeffs, cores); the order of one object is not changed "
                "(there is no method for it); bit-identity with a fresh object is claimed because both run the same deterministic "
                "computation on equal arguments in one process (the generator double is re-positioned for both before a compared call)",
+               "functional variant, box arguments: a / b are numbers or sequences of length d holding the per-dimension bounds; Python "
+               "float / int, np.float64, list (of floats / ints / np.float64), tuple, ndarray (float64 / float32 / int64 / int32, also a "
+               "non-contiguous view) and a number for one bound with a sequence for the other all denote the float64 box they "
+               "spell (every one of them is accepted by the unchanged library); dimension k is fitted in the variable "
+               "(2x - a_k - b_k)/(b_k - a_k) whatever the other dimensions' intervals are; two spellings of the same box give the "
+               "same cores bit for bit (the library converts both to the same float64 bounds before any arithmetic)",
                "data arrays of a narrower real or an integer dtype denote the (exactly representable) doubles of their elements; "
                "uint8 index arrays carry labels in 0..255; float16 values are clipped to +-60000 and int32 to +-2e9 before the cast "
                "(by construction, so that every value passed is finite); the additive full-grid claim is asserted up to "
@@ -863,12 +877,98 @@ def prop_additive(case, ctx):
 
 # ------------------------------------------------------------------------------------------- functional variant
 
+# ---- per-dimension boxes of the functional variant.  a / b are documented as "float, list, np.ndarray: grid lower / upper bounds
+# for each dimension (list or np.ndarray of length d or float)": every dimension has its OWN interval [a_k, b_k], and the fit of
+# dimension k is done in the variable (2x - a_k - b_k)/(b_k - a_k).  Box family `perdim` draws one interval per dimension from a
+# catalogue of dyadic intervals (exact in binary32 and in the affine map's numerator): the standard interval, sub-intervals of
+# it (touching -1, touching +1, touching neither), [0, 1] (the other library default), negative, positive, wider and
+# asymmetric ones, integer ones.  Kinds: `free` (any mix), `unit_hull` (all inside [-1, 1], one dimension starts at -1 and one
+# ends at +1: the hull of the box is exactly the default box while single dimensions are narrower), `unit_some` (some
+# dimensions exactly [-1, 1], the others anything), `integer` (integer bounds only), `same` (one interval for all dimensions).
+IV_UNIT = [-1.0, 1.0]
+IV_IN_UNIT = [[-1.0, 1.0], [0.0, 1.0], [-1.0, 0.0], [-0.5, 0.5], [-1.0, 0.5], [-0.25, 0.75], [-0.5, 1.0], [0.0, 0.5], [-0.75, -0.25],
+              [-1.0, -0.5], [0.5, 1.0], [-0.25, 0.25], [-1.0, 0.75]]
+IV_OTHER = [[-2.0, -1.0], [-3.0, -0.5], [-4.0, -2.0], [1.0, 4.0], [2.0, 3.0], [-2.0, 3.0], [-1.0, 3.0], [-4.0, 1.0], [-2.0, 2.0], [0.0, 2.0],
+            [-10.0, 10.0], [0.0, 8.0], [-1.0, 2.0], [-3.0, 1.0], [-1.5, 1.0], [-1.0, 1.25], [0.5, 2.5], [-6.0, -5.0]]
+IV_INT = [iv for iv in IV_IN_UNIT + IV_OTHER if all(float(v).is_integer() for v in iv)]
+# spellings of the pair (a, b); one that the drawn box does not admit (scalar for a non-constant box, integers for
+# non-integer bounds, binary32 for bounds it does not hold) falls back to the list spelling (see spell_box)
+BOX_SPELLINGS = ["list", "list", "tuple", "ndarray", "ndarray", "list_int", "ndarray_int", "ndarray_i4", "ndarray_f4", "list_np", "ndarray_strided",
+                 "mixed_a", "mixed_b", "scalar", "scalar_int", "scalar_np", "kw_list", "kw_ndarray"]
+
+
 @st.composite
-def func_cases(draw, tier):
+def perdim_boxes(draw, d):
+    kind = draw(st.sampled_from(["free", "free", "unit_hull", "unit_hull", "unit_hull", "unit_some", "integer", "same"]))
+    if kind == "free":
+        ivs = [draw(st.sampled_from(IV_IN_UNIT + IV_OTHER)) for _ in range(d)]
+    elif kind == "unit_hull":
+        ivs = [draw(st.sampled_from(IV_IN_UNIT)) for _ in range(d)]
+        i, j = draw(st.integers(0, d - 1)), draw(st.integers(0, d - 1))
+        if i == j:
+            ivs[i] = IV_UNIT
+        else:
+            ivs[i] = draw(st.sampled_from([iv for iv in IV_IN_UNIT if iv[0] == -1.0]))
+            ivs[j] = draw(st.sampled_from([iv for iv in IV_IN_UNIT if iv[1] == 1.0]))
+    elif kind == "unit_some":
+        ivs = [IV_UNIT if draw(st.booleans()) else draw(st.sampled_from(IV_IN_UNIT + IV_OTHER)) for _ in range(d)]
+        ivs[draw(st.integers(0, d - 1))] = IV_UNIT
+    elif kind == "integer":
+        ivs = [draw(st.sampled_from(IV_INT)) for _ in range(d)]
+    else:
+        ivs = [draw(st.sampled_from(IV_IN_UNIT + IV_OTHER))] * d
+    return kind, [list(iv) for iv in ivs]
+
+
+def spell_box(a, b, sp):
+    """(positional arguments, keyword arguments, name of the spelling used) that hand the box [a_k, b_k] to the library.  All
+    spellings denote exactly the float64 values in a / b.  Verified on the unchanged library: Python float / int, np.float64,
+    list of floats / ints / np.float64, tuple, ndarray of float64 / float32 / int64 / int32 (also a non-contiguous view), and
+    a scalar for one bound with a sequence for the other are all accepted."""
+    a = np.asarray(a, dtype=float); b = np.asarray(b, dtype=float)
+    const_a = bool(np.all(a == a[0])); const_b = bool(np.all(b == b[0]))
+    ints = bool(np.all(a == np.rint(a)) and np.all(b == np.rint(b)))
+    f4 = bool(np.all(a.astype(np.float32).astype(float) == a) and np.all(b.astype(np.float32).astype(float) == b))
+    if sp == "default" and bool(np.all(a == -1.0) and np.all(b == 1.0)):
+        return (), {}, sp
+    if sp in ("scalar", "scalar_int", "scalar_np") and const_a and const_b:
+        if sp == "scalar_int" and ints:
+            return (int(a[0]), int(b[0])), {}, sp
+        if sp == "scalar_np":
+            return (np.float64(a[0]), np.float64(b[0])), {}, sp
+        return (float(a[0]), float(b[0])), {}, "scalar"
+    if sp == "tuple":
+        return (tuple(a.tolist()), tuple(b.tolist())), {}, sp
+    if sp == "ndarray":
+        return (a.copy(), b.copy()), {}, sp
+    if sp == "ndarray_strided":
+        return (_strided(a.copy()), _strided(b.copy())), {}, sp
+    if sp == "list_np":
+        return ([np.float64(v) for v in a], [np.float64(v) for v in b]), {}, sp
+    if sp == "list_int" and ints:
+        return ([int(v) for v in a], [int(v) for v in b]), {}, sp
+    if sp in ("ndarray_int", "ndarray_i4") and ints:
+        dt = np.int64 if sp == "ndarray_int" else np.int32
+        return (a.astype(dt), b.astype(dt)), {}, sp
+    if sp == "ndarray_f4" and f4:
+        return (a.astype(np.float32), b.astype(np.float32)), {}, sp
+    if sp == "mixed_a" and const_a:                  # one bound common to all dimensions as a number, the other per dimension
+        return (float(a[0]), b.tolist()), {}, sp
+    if sp == "mixed_b" and const_b:
+        return (a.copy(), float(b[0])), {}, sp
+    if sp == "kw_list":
+        return (), {"a": a.tolist(), "b": b.tolist()}, sp
+    if sp == "kw_ndarray":
+        return (), {"b": b.copy(), "a": a.copy()}, sp
+    return (a.tolist(), b.tolist()), {}, "list"
+
+
+@st.composite
+def func_cases(draw, tier, boxes=("unit", "scalar", "list", "list", "perdim")):
     big = tier != "quick"
     d = draw(st.integers(2, 5 if big else 4))
     n = draw(st.integers(2, 8 if big else 6))
-    box = draw(st.sampled_from(["unit", "scalar", "list", "list"]))
+    box = draw(st.sampled_from(list(boxes)))
     # sample count: free, or placed relative to the mode size n (below / equal / just above / a few multiples)
     mk = draw(st.sampled_from(["free", "free", "free", "n-1", "n", "n", "n+1", "2n", "3n+1"]))
     m = {"free": draw(st.integers(1, 60 if big else 30)), "n-1": n - 1, "n": n, "n+1": n + 1, "2n": 2 * n, "3n+1": 3 * n + 1}[mk]
@@ -885,7 +985,16 @@ def func_cases(draw, tier):
     k = 1 if box == "scalar" else (d if box == "list" else 0)
     case["a"] = [draw(gen.reals(-5, 5)) for _ in range(k)]
     case["w"] = [draw(st.sampled_from([0.5, 1.0, 2.0, 3.7, 10.0])) for _ in range(k)]
+    if box == "perdim":
+        case["boxkind"], case["ivs"] = draw(perdim_boxes(d))
+        case["bsp"] = draw(st.sampled_from(BOX_SPELLINGS))
+    # a second spelling of the SAME box (all families): the cores may not depend on how the box is written
+    case["bsp2"] = draw(st.sampled_from(BOX_SPELLINGS + ["default", "scalar", "list", "ndarray"]))
     return case
+
+
+def func_box_cases(tier):
+    return func_cases(tier, boxes=("perdim",))
 
 
 # regularisation values: None = the default (argument not passed); an int p = 10^p; "zero" / "negzero" = exactly 0.0 / -0.0
@@ -934,6 +1043,8 @@ def prop_func(case, ctx):
         a = np.full(d, -1.0); b = np.full(d, 1.0)
     elif box == "scalar":
         a = np.full(d, case["a"][0]); b = a + case["w"][0]
+    elif box == "perdim":
+        a = np.array([iv[0] for iv in case["ivs"]], dtype=float); b = np.array([iv[1] for iv in case["ivs"]], dtype=float)
     else:
         a = np.array(case["a"], dtype=float); b = a + np.array(case["w"], dtype=float)
 
@@ -1015,10 +1126,37 @@ def prop_func(case, ctx):
     elif box == "scalar":
         pos = (Xarg, yarg, n, float(a[0]), float(b[0]))
         gkw = {"a": float(a[0]), "b": float(b[0])}
+    elif box == "perdim":
+        bpos, bkw, bsp = spell_box(a, b, case["bsp"])
+        pos = (Xarg, yarg, n) + bpos
+        kw.update(bkw)
+        gkw = {"a": a.copy(), "b": b.copy()}
+        unit_hull = float(a.min()) == -1.0 and float(b.max()) == 1.0
+        ctx.label("boxkind:" + case["boxkind"], "box_spelling:" + bsp,
+                  "hull:" + ("[-1,1]" if unit_hull else ("[0,1]" if float(a.min()) == 0.0 and float(b.max()) == 1.0 else "other")),
+                  "dims_equal_[-1,1]:" + ("all" if np.all(a == -1) and np.all(b == 1) else ("some" if np.any((a == -1) & (b == 1)) else "none")))
+        if unit_hull and not (np.all(a == -1) and np.all(b == 1)):
+            ctx.label("hull_[-1,1]_with_narrower_dimension")
+        if np.any(b <= 0):
+            ctx.label("box_has_negative_dimension")
+        if np.any((a < -1) | (b > 1)):
+            ctx.label("box_has_dimension_beyond_[-1,1]")
     else:
         pos = (Xarg, yarg, n, a.tolist() if case["as_list"] else a, b.tolist() if case["as_list"] else b)
         gkw = {"a": pos[3], "b": pos[4]}
     A0 = ctx.lib(teneva.anova_func, *pos, e=None, **kw)
+    # ---- the same box in another spelling (default / scalar / list / tuple / ndarray / integers / one bound scalar): the
+    # arguments denote the same numbers, so the result is the same (bit for bit: the library turns every spelling into the
+    # same float64 bounds before it computes anything; the computation is deterministic)
+    if "bsp2" in case:
+        bpos2, bkw2, bsp2 = spell_box(a, b, case["bsp2"])
+        kw2 = {k: v for k, v in kw.items() if k not in ("a", "b")}
+        A0b = ctx.lib(teneva.anova_func, spell_X(X)[0], spell_y(y, ydt)[0], n, *bpos2, e=None, **kw2, **bkw2)
+        ctx.check(same_cores(A0, A0b), "anova_func: the same box written in two ways (scalar / list / tuple / ndarray / integer / default "
+                  "spelling of a, b) gives different cores", first=[repr(v) for v in pos[3:]] + [repr(kw.get("a")), repr(kw.get("b"))],
+                  second=[repr(v) for v in bpos2] + [repr(bkw2.get("a")), repr(bkw2.get("b"))], a=a, b=b,
+                  err=fro(dense(A0) - dense(A0b)) if oracle.wellformed(A0b, [n] * d) is None and oracle.wellformed(A0, [n] * d) is None else None)
+        ctx.label("box_spelling2:" + bsp2)
     why = oracle.wellformed(A0, [n] * d)
     ctx.check(why is None, f"anova_func(e=None): result is not a well-formed TT-tensor of shape [n]*d: {why}")
     F0 = dense(A0)
@@ -1499,7 +1637,8 @@ def func_history_cases(draw, tier):
     d = draw(st.integers(2, 4))
     n = draw(st.integers(2, 8 if big else 6))
     return {"d": d, "n": n, "m": draw(st.integers(1, 40 if big else 20)), "xseed": draw(gen.seeds),
-            "box": draw(st.sampled_from(["unit", "list"])), "a": [draw(gen.reals(-5, 5)) for _ in range(d)],
+            "box": draw(st.sampled_from(["unit", "list", "perdim"])), "a": [draw(gen.reals(-5, 5)) for _ in range(d)],
+            "ivs": draw(perdim_boxes(d))[1], "bsp": draw(st.sampled_from(BOX_SPELLINGS)),
             "w": [draw(st.sampled_from([0.5, 1.0, 2.0, 3.7])) for _ in range(d)],
             "lamb": draw(st.sampled_from([None, 1e-7, 1e-3, 1.0, 0.0])), "xdt": draw(st.sampled_from(["f8", "f4", "list"])),
             "ydt": draw(st.sampled_from(["f8", "f4", "list", "i8"])),
@@ -1513,16 +1652,21 @@ def prop_func_history(case, ctx):
     rng = np.random.default_rng(case["xseed"])
     if case["box"] == "unit":
         a = np.full(d, -1.0); b = np.full(d, 1.0); box = ()
+    elif case["box"] == "perdim":                    # a different interval per dimension, in a drawn spelling (new objects per call)
+        a = np.array([iv[0] for iv in case["ivs"]], dtype=float); b = np.array([iv[1] for iv in case["ivs"]], dtype=float); box = None
     else:
         a = np.array(case["a"], dtype=float); b = a + np.array(case["w"], dtype=float); box = (a.tolist(), b.tolist())
     X = a + (b - a) * rng.uniform(0.02, 0.98, size=(m, d))
     y = rng.normal(size=m) * 2 + rng.normal()
+    kw = {} if case["lamb"] is None else {"lamb": case["lamb"]}
+    if box is None:
+        kw.update(spell_box(a, b, case["bsp"])[1])
 
     def args():
         Xa = X.tolist() if case["xdt"] == "list" else (X.astype(np.float32) if case["xdt"] == "f4" else X.copy())
-        return (Xa, spell_y(y, case["ydt"])[0], n) + tuple(list(v) for v in box)
+        bx = spell_box(a, b, case["bsp"])[0] if box is None else tuple(list(v) for v in box)
+        return (Xa, spell_y(y, case["ydt"])[0], n) + bx
 
-    kw = {} if case["lamb"] is None else {"lamb": case["lamb"]}
     ctx.label("fh_box:" + case["box"], f"fh_lamb={case['lamb']}", "fh_X:" + case["xdt"], "fh_y:" + case["ydt"])
     ctx.nontrivial(m >= 2 and len(set(map(str, case["ops"]))) >= 2)
 
@@ -1559,6 +1703,7 @@ SUBCHECKS = [
     Sub("order2_wide", prop_order2, strategy=wide_cases, quick=100, thorough=600),
     Sub("additive", prop_additive, strategy=additive_cases, quick=150, thorough=3000),
     Sub("func", prop_func, strategy=func_cases, quick=200, thorough=4000),
+    Sub("func_boxes", prop_func, strategy=func_box_cases, quick=120, thorough=2500),
     Sub("history", prop_history, strategy=history_cases, quick=150, thorough=2500),
     Sub("func_history", prop_func_history, strategy=func_history_cases, quick=60, thorough=800),
 ]
